@@ -29,6 +29,8 @@ type MachineCfg struct {
 	Final func(w *world.World) error
 	// Setup may customise the world options (genesis sub-modes).
 	Setup func(g *G, opt *world.Options)
+	// Twin / Perturb configure the second instance (see world.Options).
+	Twin, Perturb bool
 	// Step lets a property add its own step kinds; it returns nil if kind is unknown.
 	Step func(g *G, kind string) *world.Step
 }
@@ -184,6 +186,10 @@ func (g *G) genStep(cfg *MachineCfg, kind string) *world.Step {
 		return &world.Step{Kind: "commit", DT: int64(1 + g.intn("dt", 100000))}
 	case "crash":
 		return &world.Step{Kind: "crash"}
+	case "crash_redeliver":
+		return &world.Step{Kind: "crash_redeliver"}
+	case "crash_endblock":
+		return &world.Step{Kind: "crash_endblock"}
 	case "restart":
 		return &world.Step{Kind: "restart"}
 	case "export":
@@ -204,7 +210,7 @@ func (g *G) authzURLs() []string {
 
 // newWorld builds the world of one case.
 func newWorld(g *G, cfg *MachineCfg) (*world.World, error) {
-	opt := world.Options{Prop: cfg.Prop, Also: alsoSet(cfg.Also), Open: OpenFindings()}
+	opt := world.Options{Prop: cfg.Prop, Also: alsoSet(cfg.Also), Open: OpenFindings(), Twin: cfg.Twin, Perturb: cfg.Perturb}
 	if cfg.Setup != nil {
 		cfg.Setup(g, &opt)
 	}
@@ -246,7 +252,7 @@ func runMachine(t *testing.T, cfg *MachineCfg) {
 
 // replayHistory re-executes a stored history without any generator.
 func replayHistory(cfg *MachineCfg, steps []world.Step) (*world.World, error) {
-	opt := world.Options{Prop: cfg.Prop, Also: alsoSet(cfg.Also), Open: OpenFindings()}
+	opt := world.Options{Prop: cfg.Prop, Also: alsoSet(cfg.Also), Open: OpenFindings(), Twin: cfg.Twin, Perturb: cfg.Perturb}
 	w, err := world.New(opt)
 	if err != nil {
 		return nil, err
